@@ -29,6 +29,18 @@
 #include "tls.h"
 #include "parser.h"
 
+/* `log`: a logger at DEBUG level that reads every byte of every message (so that the sanitizers see what the
+   library's format strings read), and prints nothing */
+static volatile unsigned long sw_log_sink;
+static void sw_logger(void *ud, xmpp_log_level_t level, const char *area, const char *msg)
+{
+    const char *c;
+    (void)ud; (void)level;
+    for (c = area; *c; c++) sw_log_sink += (unsigned char)*c;
+    for (c = msg; *c; c++) sw_log_sink += (unsigned char)*c;
+}
+static xmpp_log_t sw_log = {sw_logger, NULL};
+
 /* ---------------------------------------------------------------- trace buffer */
 static char *tr_buf;
 static size_t tr_len, tr_cap;
@@ -814,6 +826,7 @@ static void exec_cmd(char *cmd)
         memcpy(cb_data, d, n); cb_len = n; cb_set = 1;
         free(ty); free(d);
     } else if (!strcmp(argv[0], "xaddr")) { if (xaddr_n < 4) xaddrs[xaddr_n++] = (char *)unhex(argv[1], NULL);
+    } else if (!strcmp(argv[0], "log")) { ctx->log = &sw_log;   /* every log message is formatted and read (no output) */
     } else if (!strcmp(argv[0], "rng")) { rng_state = (uint32_t)strtoul(argv[1], NULL, 10);
     } else if (!strcmp(argv[0], "allocfail")) { alloc_fail_at = alloc_calls + atol(argv[1]);
     } else if (!strcmp(argv[0], "hdef")) {
